@@ -486,6 +486,17 @@ static RunResult run_history(const std::vector<int>& h, int align_mode, bool rep
     std::string perr; r.key += probe_caches(&perr);
     if (!perr.empty()) fail(c, "cache:undersized-or-foreign-block-handed-out", perr + " after " + (h.empty() ? std::string("(root)") : opname(OPS[h.back()])));
     if (A.errors()) fail(c, "ledger:" + A.first_error.substr(0, 60), "while probing the caches");
+    // Behavioural probe of what each vector believes about its own storage (destructive, the state is discarded next):
+    // does a size-changing assignment throw? On a consistent object this is determined by the storage class already in
+    // the key; an object whose belief differs from where its components live gets a key of its own and is expanded.
+    std::vector<std::string> beliefs;
+    for (int i = 0; i < NS; i++) if (m.s[i].dim > 0) {
+      bool thr = false; int od = (m.s[i].dim == DIMS[0]) ? DIMS[1 % DIMS.size()] : DIMS[0]; if (od == m.s[i].dim) od = m.s[i].dim == 2 ? 3 : 2;
+      try { SU_vector t((unsigned)od); w.v(i) = t; } catch (const std::exception&) { thr = true; }
+      beliefs.push_back(fmt("%d.%d.%d", m.s[i].kind, m.s[i].dim, (int)thr));
+    }
+    std::sort(beliefs.begin(), beliefs.end());
+    r.key += "|bel"; for (auto& b : beliefs) r.key += ":" + b;
   }
   if (r.member && !c.failed) teardown(w, c, "after " + (h.empty() ? std::string("(root)") : opname(OPS[h.back()])));
   else { w.destroy_all(); }
